@@ -388,7 +388,7 @@ def _bool_of_result(ix: Index, v) -> Optional[bool]:
 
 # ------------------------------------------------------------------ REC sweep over the packages a property rests on
 
-def sweep_records(c: Check, rule: str, prefixes, floor: int = 1) -> int:
+def sweep_records(c: Check, rule: str, prefixes, floor: int = 1, strict: bool = False) -> int:
     """REC over every data class of the given packages: (1) tuple records - a property named like a constructor
     parameter reads the slot that stores that parameter; (2) plain classes - a property named like a constructor
     parameter that returns `self.<attr>` returns the attribute the constructor assigns directly from that parameter.
@@ -443,6 +443,19 @@ def sweep_records(c: Check, rule: str, prefixes, floor: int = 1) -> int:
                                      '%s hands %s to its base class as parameter %s: the value it was given is replaced '
                                      'under a condition (every reader of the record sees something else than what the '
                                      'constructor was called with)' % (cls.name, unparse(a)[:60], q), init.loc())
+            if strict:
+                # value records: an attribute named like a constructor parameter holds that parameter as given
+                for st in walk_own(init.node):
+                    if isinstance(st, ast.Assign) and len(st.targets) == 1 and isinstance(st.targets[0], ast.Attribute) \
+                            and isinstance(st.targets[0].value, ast.Name) and st.targets[0].value.id == init.self_name \
+                            and st.targets[0].attr.lstrip('_') in params:
+                        judged += 1
+                        pn_ = st.targets[0].attr.lstrip('_')
+                        c.expect(isinstance(st.value, ast.Name) and st.value.id == pn_, rule,
+                                 '%s.%s-as-given' % (cls.key, pn_),
+                                 '%s stores %s as its %s: a value record must hold what it is constructed with (every '
+                                 'producer and consumer of the record computes with the altered value)' % (
+                                     cls.name, unparse(st.value)[:60], pn_), init.loc())
             stored: Dict[str, set] = {}
             for st in walk_own(init.node):
                 if isinstance(st, ast.Assign) and len(st.targets) == 1 and isinstance(st.targets[0], ast.Attribute) \
